@@ -19,6 +19,7 @@ EXPLANATION = (
     "cpu = not gpu (disjoint and exhaustive); the link frame is an inner join on correlation of the rows with correlation != -1; exactly two label-addressed "
     "stores x<-y and y<-x with position-based right-hand sides; the sentinel initialisation min(correlation, 0) precedes them on every path that has a "
     "correlation column; no other writer; the gpu_index/cpu_index renaming agrees with its consumer. Uniqueness of correlation ids is an input assumption."
+    " Later additions: the link frame is written unfiltered; the trim keeps pairs together (side complement on an abstract grid, no time cut on the device side); no id truthiness tests in the side predicates."
 )
 TM = "hta.common.trace"
 ES, CS, OTHER = 1001, 1002, 5
